@@ -64,12 +64,14 @@ NONMEMBERS = {
     'wordformat': [[], ['out'], ['out', "'%q'"]],
 }
 
-CTX = ['alone', 'after', 'before', 'paren', 'not', 'mid', 'list']
+CTX = ['alone', 'after', 'before', 'paren', 'not', 'mid', 'list', 'gparen', 'long', 'tab', 'deep']
 
 
 def in_ctx(ctx, prim):
     return {'alone': prim, 'after': '-true ' + prim, 'before': prim + ' -false', 'paren': '( ' + prim + ' )',
-            'not': '! ' + prim, 'mid': '-true ' + prim + ' -o -false', 'list': '-false , ' + prim + ' -true'}[ctx]
+            'not': '! ' + prim, 'mid': '-true ' + prim + ' -o -false', 'list': '-false , ' + prim + ' -true',
+            'gparen': '(' + prim + ')', 'long': '-true ' * 60 + prim + ' -o -false', 'tab': '-true\t' + prim + '\n',
+            'deep': '( ' * 20 + prim + ' )' * 20}[ctx]
 
 
 def prim_request(op, kw, args, ctx, extra=''):
@@ -90,7 +92,7 @@ def gen_vocab(tier, rnd):
                 lines.append(prim_request('P', kw, args, ctx))
         for args in non:
             at_end_only = args == [] or (kind in ('wordword', 'wordformat') and len(args) == 1)
-            for ctx in (['alone', 'after'] if at_end_only else ['alone', 'after', 'before', 'paren', 'mid']):
+            for ctx in (['alone', 'after'] if at_end_only else ['alone', 'after', 'before', 'paren', 'mid', 'gparen', 'long', 'tab']):
                 lines.append(prim_request('P', kw, args, ctx))
     # every keyword mangled into a non-keyword: one character appended, dropped, changed in case, doubled dash
     allkw = set(KW) | {'-a', '-and', '-o', '-or', '!', '(', ')', ','}
@@ -187,6 +189,10 @@ def boundary_values(rnd, extra_random):
         for d in range(-2, 3):
             if c + d >= 0:
                 vals.add(c + d)
+    for k in range(1, 66):
+        vals |= {2 ** k - 1, 2 ** k, 2 ** k + 1}
+    for k in range(2, 17):
+        vals |= {U64 // k, U64 // k + 1}
     for u in list(SIZE_UNITS.values()) + [60, 3600, 86400]:
         for d in range(-2, 3):
             if U64 // u + d >= 0:
